@@ -162,8 +162,9 @@ package syncx
 //@   ensures [only-the-current-one-is-dropped] calls(mr.equal) == 1 && arg(mr.equal, 1) == resource && (ret(mr.equal) ==> mr.resource == nil) && before(on("lock", mr.lock), mr.equal)
 // Pool / Limit / TimeoutLimit construction.
 //@ func NewLimit
-//@   prop C18
-//@   ensures [n-slots] result.pool != nil
+//@   prop C18, C02
+// exactly n slots (a limit of 0 admits nobody) in a pool made for this limit
+//@   ensures [exactly-n-slots] result.pool != nil && cap(result.pool) == n && fresh(result.pool)
 //@ func (*Cond).Signal
 //@   prop C18
 //@   requires c != nil
